@@ -2,15 +2,27 @@ PROPERTY = "C09"
 PACKAGES = ["./aggsender/flows"]
 F = "github.com/agglayer/aggkit/aggsender/flows."
 OBLIGATIONS = []
-for nl, nc, fin, ml, gifull, mainnet, tiers in (
-        (2, 1, 0, 0, 1, 1, ("quick", "thorough")), (2, 1, 0, 0, 1, 0, ("quick", "thorough")), (2, 1, 1, 3, 1, 0, ("quick", "thorough")), (3, 2, 1, 0, 1, 0, ("quick", "thorough")),
-        (3, 2, 2, 0, 1, 1, ("quick", "thorough")), (2, 1, 1, 0, 0, 0, ("thorough",)), (3, 1, 2, 40, 1, 0, ("thorough",)), (4, 2, 3, 1, 1, 1, ("thorough",)), (3, 2, 2, 2, 0, 0, ("thorough",))):
+CASES = [
+    # NL NC FIN ML GIFULL MAINNET SYMIDX LIDX RIDX tiers
+    (2, 1, 0, 0, 1, 1, 1, 0, 0, ("quick", "thorough")),
+    (2, 1, 0, 0, 1, 0, 1, 0, 0, ("quick", "thorough")),
+    (2, 1, 1, 3, 1, 0, 0, 0xfffffffe, 7, ("quick", "thorough")),
+    (3, 2, 1, 0, 1, 0, 0, 0, 0, ("quick", "thorough")),
+    (3, 2, 2, 0, 1, 1, 0, 0x12345678, 3, ("thorough",)),
+    (3, 2, 2, 2, 1, 0, 0, 0x80000000, 0x7ffffff0, ("thorough",)),
+    (2, 1, 1, 0, 0, 0, 0, 3, 1, ("thorough",)),
+    (3, 1, 2, 40, 1, 0, 1, 0, 0, ("thorough",)),
+    (4, 2, 3, 1, 1, 1, 0, 1, 1, ("thorough",)),
+]
+for nl, nc, fin, ml, gifull, mainnet, symidx, lidx, ridx, tiers in CASES:
     OBLIGATIONS.append(dict(
-        name="C09 %d L1 info leaves, %d %s claim(s)%s against the first leaves, finalized block covers %d leaf/leaves (claim metadata %d bytes): every imported exit verifies against the named L1 info root"
-             % (nl, nc, "mainnet" if mainnet else "rollup", "" if gifull else " (any global index incl. short encodings)", fin + 1, ml),
-        harness=F + "ZZVerif_C09_ClaimProofs", params={"NL": nl, "NC": nc, "FIN": fin, "ML": ml, "GIFULL": gifull, "MAINNET": mainnet}, tiers=tiers, reach=["built"], time_limit_s=3000,
-        bounds="all exit fields, global indexes (mainnet / rollup), all 64 proof siblings per claim, all L1 leaf contents; syncer behind / level / ahead of the finalized block, "
-               "same or another fork"))
+        name="C09 %d L1 info leaves, %d %s claim(s)%s, tree positions %s, finalized block covers %d leaf/leaves (claim metadata %d bytes): every imported exit verifies against the named L1 info root"
+             % (nl, nc, "mainnet" if mainnet else "rollup", "" if gifull else " (short global index encodings allowed)",
+                "symbolic" if symidx else "leaf 0x%x+5k / rollup 0x%x+k" % (lidx, ridx), fin + 1, ml),
+        harness=F + "ZZVerif_C09_ClaimProofs",
+        params={"NL": nl, "NC": nc, "FIN": fin, "ML": ml, "GIFULL": gifull, "MAINNET": mainnet, "SYMIDX": symidx, "LIDX": lidx, "RIDX": ridx},
+        tiers=tiers, reach=["built"], time_limit_s=3000,
+        bounds="all exit fields, all 64 proof siblings per claim, all L1 leaf contents; syncer behind / level / ahead of the finalized block, same or another fork"))
 ASSUMPTIONS = ["the L1 info tree syncer answers as C08/C11 establish for the real one (fake in the harness: proofs computed by a reference Merkle routine)",
                "each claim was accepted by the L2 bridge contract (its proofs lead to the exit roots of the L1 info leaf whose global exit root it names)",
                "Keccak as uninterpreted function; global exit roots pairwise distinct", "block hash as uninterpreted function of the header"]
